@@ -11,13 +11,14 @@
                           sympy's automatic evaluation of products and powers of positive symbols)
 
   `parseUnit : String → Except PErr (UExpr Rat)`.  Everything outside the vocabulary is
-  `PErr.unitParseError` ("the code is expected to raise UnitParseError").  The three ways in
-  which the real code does *not* behave like that are modelled too, because they are the
-  defects the property is about:
-    * `PErr.typeError`   — a `TypeError` escapes `_get_unit_data_from_expr` (negative scale or
-                           negative number under a non-integer power, symbolic exponent);
-    * `PErr.hang`        — integer towers / float exponents that do not finish in practical time;
-    * `PErr.decodeError` — `bytes` that are not UTF-8 (`UnicodeDecodeError` escapes).
+  `PErr.unitParseError` ("the code is expected to raise UnitParseError").  The way in
+  which the real code does *not* behave like that is modelled too, because it is the
+  defect the property is about:
+    * `PErr.hang`        — integer towers / float exponents that do not finish in practical time.
+  (`PErr.typeError` and `PErr.decodeError` were the escaping `TypeError` of `float()` in
+  `_get_unit_data_from_expr` and the `UnicodeDecodeError` of `bytes.decode`; since the fixes
+  C20-02 / C20-03 both are `UnitParseError` and the model no longer produces these outcomes —
+  theorem `no_other_exception`.)
   `PErr.unmodelled` marks inputs whose outcome depends on sympy internals this model does not
   cover (irrational coefficients, `zoo`/`nan`, argument order of `Mul`, numbers beyond 8192
   bits, nesting beyond 100); the harness counts them and applies only the direct oracles there.
@@ -54,11 +55,21 @@ def isPySpace (c : Char) : Bool :=
 def pyStrip (cs : List Char) : List Char :=
   ((cs.dropWhile isPySpace).reverse.dropWhile isPySpace).reverse
 
-/-- `unit_expr.replace("%", "percent").replace("°", "deg")` — the replacements are the
-    regenerated `Generated.parseRewrites`, applied one after the other -/
+/-- `str.replace(pat, rep)`: left to right, non-overlapping (`pat` non-empty) -/
+def replaceAll (pat rep : List Char) : Nat → List Char → List Char
+  | 0, cs => cs
+  | _ + 1, [] => []
+  | fuel + 1, c :: cs =>
+    if pat.isPrefixOf (c :: cs) then rep ++ replaceAll pat rep fuel ((c :: cs).drop pat.length)
+    else c :: replaceAll pat rep fuel cs
+
+/-- the `unit_expr.replace(a, b)` statements of `parse_unyt_expr` (`%` → `percent`, `Δ°` → `delta_deg`,
+    `°` → `deg`): the regenerated `Generated.parseRewriteCodes`, applied one after the other -/
 def rewrite (cs : List Char) : List Char :=
   Generated.parseRewriteCodes.foldl
-    (fun acc (p : Nat × List Nat) => acc.flatMap fun c => if c.toNat = p.1 then p.2.map Char.ofNat else [c]) cs
+    (fun acc (p : List Nat × List Nat) =>
+      if p.1.isEmpty then acc
+      else replaceAll (p.1.map Char.ofNat) (p.2.map Char.ofNat) (acc.length + 1) acc) cs
 
 def isDigit (c : Char) : Bool := 48 ≤ c.toNat && c.toNat ≤ 57
 
@@ -480,7 +491,7 @@ def vPow (a b : Val) : Except PErr Val :=
       if x.coeff == 1 && x.factors.isEmpty then .ok (.mono ⟨1, []⟩)            -- 1 ** anything = 1
       else if isBareSymbol x then
         if isBareSymbol y then .ok (.bad .unitParseError x.factors false)       -- "Invalid unit expression"
-        else .ok (.bad .typeError x.factors false)                              -- float(1.0**(2*s))
+        else .ok (.bad .unitParseError x.factors false)                         -- float(1.0**(2*s)): TypeError, caught
       else if x.factors.isEmpty && x.coeff.den == 1 && x.coeff ≥ 2 && isBareSymbol y then
         .ok (.bad .unitParseError [] false)
       else unm
@@ -500,7 +511,7 @@ def vPow (a b : Val) : Except PErr Val :=
           mkMono cn (UExpr.scaleF x.factors q)
       else
         -- negative number under a non-integer power: `I` (→ UnitParseError) for square roots,
-        -- `(-1)**(p/q)` (→ float() of a complex: TypeError) otherwise
+        -- `(-1)**(p/q)` (→ float() of a complex: TypeError, caught → UnitParseError) otherwise
         -- (sympy first takes out the integer part of the exponent: `(-8)**(19**9/3)` computes 2**(19**9))
         let w := max (bitsOf c.num.natAbs) (bitsOf c.den)
         let est := (q.num.natAbs / q.den) * (w - 1)
@@ -508,7 +519,7 @@ def vPow (a b : Val) : Except PErr Val :=
         else if est > bitLimit then unm
         else
         let f := UExpr.normF (UExpr.scaleF x.factors q)
-        if okFactors f then .ok (.bad (if q.den = 2 then .unitParseError else .typeError) f true) else unm
+        if okFactors f then .ok (.bad .unitParseError f true) else unm
   | _, _ => unm
 
 /-- `f(arg)`: only `sqrt` is callable; `sqrt(x)` is `x ** (1/2)` -/
@@ -570,24 +581,17 @@ def factorFlags : Factors → Bool × Bool
     | some neg => (u, t || (neg && q.den != 1))
 
 /-- the end of `Unit.__new__`: look the symbols up; `float(scale ** power)` fails with
-    `TypeError` for a negative scale under a non-integer power.  When both an unknown symbol and
-    such a power occur, which one is reached first depends on sympy's argument order. -/
+    `TypeError` for a negative scale under a non-integer power, which the `Pow` branch of
+    `_get_unit_data_from_expr` turns into `UnitParseError` like an unknown symbol -/
 def unitData (e : UExpr Rat) : Except PErr (UExpr Rat) :=
   match factorFlags e.factors with
   | (false, false) => .ok e
-  | (true, false) => upe
-  | (false, true) => .error .typeError
-  | (true, true) => unm
+  | _ => upe
 
 def finish : Val → Except PErr (UExpr Rat)
   | .fn | .ty => upe                                 -- "must be a string or sympy Expr"
   | .mono e => unitData e
-  | .bad cls rest sticky =>
-    match factorFlags rest with
-    | (false, false) => .error cls
-    | (true, false) => if cls = .unitParseError || !sticky then upe else unm
-    | (false, true) => if cls = .typeError then .error .typeError else unm
-    | (true, true) => unm
+  | .bad _ _ _ => upe                                -- every such factor ends in `UnitParseError`
 
 /-- `Unit(s)` for a `str` -/
 def parseChars (cs : List Char) : Except PErr (UExpr Rat) :=
